@@ -13,7 +13,7 @@ RULE = ('seeded sessions of 1-6 stream operations (shell, exec_out, streaming_sh
         '>= 1 multi-WRITE transfer in the run; distinct = event-log digests')
 ASSUMPTIONS = ['the device stalls until the OKAY it is owed arrives, as adbd does, so a missing OKAY becomes a timeout',
                'that list/stat/pull close their stream is C08/C09\'s statement; reboot() legitimately leaves its stream open']
-EXPECT_PROBES = {'all': ['c04_abandoned_generator', 'c04_request_longer_than_maxdata', 'c04_nested_streams', 'c04_open_fills_maxdata', 'c04_multi_wrte_push', 'c04_ge_4_streams', 'empty_payload_wrte_acked', 'push_fail_sent', 'fail_before_okay', 'wrte_in_flight_at_host_close', 'recv_closed_mid_transfer', 'late_okay']}
+EXPECT_PROBES = {'all': ['open_refused', 'c04_abandoned_generator', 'c04_request_longer_than_maxdata', 'c04_nested_streams', 'c04_open_fills_maxdata', 'c04_multi_wrte_push', 'c04_ge_4_streams', 'empty_payload_wrte_acked', 'push_fail_sent', 'fail_before_okay', 'wrte_in_flight_at_host_close', 'recv_closed_mid_transfer', 'late_okay']}
 KINDS = ['shell', 'exec_out', 'streaming_shell', 'root', 'list', 'stat', 'pull', 'pull', 'push', 'push']
 OWN = ('protocol', 'wrong-result', 'unexpected-exception', 'timeout-instead-of-result', 'missing-exception', 'wrong-exception', 'hang', 'no-termination',
        'unacked-write', 'clse-count')
@@ -93,6 +93,12 @@ def generate(seed, tier):
         d['maxdata'] = g.pick([256, 300, 512])
         long = '/data/' + 'd' * g.int(260, 600)
         S.add_file(g, d, 2000, path=long + '/f')
+        d['fs'][long + '/f']['records'] = [max(r, 64) for r in d['fs'][long + '/f']['records']]
+        for plan in d['cut_plans']:
+            if plan['policy'] in ('one', 'tiny'):
+                plan['policy'] = 'random'      # the added traffic was not part of the session's sizing
+        if scn['config'].get('frag') == 'one':
+            scn['config']['frag'] = 'mixed'
         d['dirs'][long] = [[b'f'.hex(), 0o100644, 10, 5]]
         for k in range(g.int(1, 3)):
             kind = g.pick(['stat', 'list', 'pull', 'push'])
@@ -110,6 +116,16 @@ def generate(seed, tier):
         pad = d['maxdata'] - len((('shell:' if k != 'exec_out' else 'exec:')).encode()) - 1 - g.pick([0, 0, 1, 2, 17, -1, -40])     # the last two overshoot: the library does not limit destinations; the NUL clause holds there too
         name = S.add_cmd(g, d, 300, name='echo ' + 'x' * (pad - 5))
         scn['actors'][0].append({'op': k, 'cmd': name, 'decode': False})
+    if g.chance(0.1):
+        # the device refuses exec: with CLSE(0, id): no OKAY, no remote id -- the host has nothing to say on that stream any more
+        d['refuse'] = ['exec:']
+        if not any(op['op'] == 'exec_out' for op in scn['actors'][0]):
+            scn['actors'][0].append({'op': 'exec_out', 'cmd': S.add_cmd(g, d, 100), 'decode': False})
+        for op in scn['actors'][0]:
+            for o2 in [op] + list(op.get('nested') or []):
+                if o2['op'] == 'exec_out':
+                    o2.update({'rt': 0.5, 'tt': 0.3, 'expect_timeout': True})
+                    o2.pop('to', None)
     return {'seed': seed, 'scn': scn}
 
 
